@@ -557,6 +557,9 @@ class Executor(object):
         return [(st, ("val", self.read_field(st, v, pycls, attr)))]
 
     def read_field(self, st, v, pycls, attr):
+        mon = getattr(self.env, "monitor", None)
+        if mon is not None and hasattr(mon, "on_read"):
+            mon.on_read(self, st, v, attr)
         val = st.read(Val.ref(v), attr)
         info = self.env.fields.lookup(pycls, attr) or {}
         ftype = info.get("type")
